@@ -1186,6 +1186,136 @@ def check_reload_order(ctx: Ctx) -> None:
         ctx.ob("11.5-reload-order", con, not late, f"`{norm_stmt(c, 60)}` is computed from the reloaded problem while it is still being filled (`{norm_stmt(late[0], 60) if late else ''}` runs after it): the derived value does not see what is read later (constraints: the Pareto front then contains infeasible points)", node=c, stmt=f"{last_attr(c)}({pb}) after the problem is complete")
 
 
+MF = "core/mdo_functions/mdo_function.py"
+OR_ = "algos/optimization_result.py"
+
+
+def _class_consts(cls) -> dict[str, object]:
+    """string / list-of-string / len(<string const>) class-level constants, by their (unmangled) name"""
+    out: dict[str, object] = {}
+    for s in cls.node.body:
+        tgt = s.targets[0] if isinstance(s, ast.Assign) and len(s.targets) == 1 else s.target if isinstance(s, ast.AnnAssign) and s.value is not None else None
+        if not isinstance(tgt, ast.Name):
+            continue
+        v = s.value
+        if isinstance(v, ast.Constant) and isinstance(v.value, str):
+            out[tgt.id] = v.value
+        elif isinstance(v, (ast.List, ast.Tuple)):
+            elts = [e.value if isinstance(e, ast.Constant) else out.get(e.id) if isinstance(e, ast.Name) else None for e in v.elts]
+            if all(isinstance(e, str) for e in elts):
+                out[tgt.id] = elts
+        elif isinstance(v, ast.Call) and dotted(v.func) == "len" and len(v.args) == 1 and isinstance(v.args[0], ast.Name) and isinstance(out.get(v.args[0].id), str):
+            out[tgt.id] = len(out[v.args[0].id])
+    return out
+
+
+def check_descriptions(ctx: Ctx) -> None:
+    """11.6 the dictionary forms that the problem file stores: function descriptions and the solution."""
+    # -- MDOFunction.to_dict / init_from_dict_repr: every serialised attribute is a constructor parameter that the
+    #    constructor stores under the same name (the reader calls MDOFunction(func=None, **attributes))
+    cls = ctx.index.cls(MF, "MDOFunction")
+    consts = _class_consts(cls)
+    attrs = consts.get("DICT_REPR_ATTR")
+    ctx.need(isinstance(attrs, list) and len(attrs) >= 5, "MDOFunction.DICT_REPR_ATTR not found")
+    init = cls.methods["__init__"]
+    params = {a.arg for a in [*init.args.args, *init.args.kwonlyargs]}
+    sv = SymValues(init)
+    stored = {}
+    for st in stmts_of(init):
+        if isinstance(st, ast.Assign) and len(st.targets) == 1 and isinstance(st.targets[0], ast.Attribute) and dotted(st.targets[0].value) == "self":
+            stored.setdefault(st.targets[0].attr, []).append(st.value)
+    for a in attrs:
+        con = cname(MF, "MDOFunction", "__init__")
+        ok = a in params
+        ctx.ob("11.6-function-description", con, ok, f"'{a}' is written by to_dict (DICT_REPR_ATTR) but is not a parameter of MDOFunction.__init__: init_from_dict_repr(**attributes) raises on reload", node=init, stmt=f"DICT_REPR_ATTR entry {a} is a constructor parameter")
+        vals = stored.get(a, [])
+        prop = cls.methods.get(a)
+        if not vals and prop is not None:
+            # a read-only property over a private attribute the constructor fills
+            rr = [s_ for s_ in stmts_of(prop) if isinstance(s_, ast.Return) and s_.value is not None]
+            if len(rr) == 1 and isinstance(rr[0].value, ast.Attribute) and dotted(rr[0].value.value) == "self":
+                vals = stored.get(rr[0].value.attr, [])
+        # the attribute read back by to_dict is the value given to the constructor (possibly with a falsy default)
+        ok = bool(vals) and all(any(t == a or t.startswith(f"{a} or ") for t in sv.texts(v)) for v in vals[-1:])
+        ctx.ob("11.6-function-description", con, ok, f"the constructor must store its parameter '{a}' in self.{a}: it is the attribute to_dict reads, so a reloaded function has the description that was saved", node=(vals or [init])[-1], stmt=f"self.{a} = {a}")
+    td = cls.methods["to_dict"]
+    ok = any(isinstance(n, ast.For) and norm_stmt(n.iter).endswith("DICT_REPR_ATTR") for n in stmts_of(td)) and any(isinstance(c, ast.Call) and dotted(c.func) == "getattr" for c in walk_body(td))
+    ctx.ob("11.6-function-description", cname(MF, "MDOFunction", "to_dict"), ok, "to_dict writes the attributes listed in DICT_REPR_ATTR (read with getattr)", node=td, stmt="for attr_name in DICT_REPR_ATTR: getattr")
+    rd = cls.methods["init_from_dict_repr"]
+    rets = [s_ for s_ in stmts_of(rd) if isinstance(s_, ast.Return) and s_.value is not None]
+    kw = rd.args.kwarg.arg if rd.args.kwarg else None
+    ok = len(rets) == 1 and isinstance(rets[0].value, ast.Call) and dotted(rets[0].value.func) == "MDOFunction" and any(k.arg is None and dotted(k.value) == kw for k in rets[0].value.keywords)
+    ctx.ob("11.6-function-description", cname(MF, "MDOFunction", "init_from_dict_repr"), bool(ok), "the reader hands every saved attribute to the constructor", node=rd, stmt="MDOFunction(func=None, **attributes)")
+    # -- OptimizationResult.to_dict / from_dict: the two constraint mappings travel under two prefixes
+    rc = ctx.index.cls(OR_, "OptimizationResult")
+    rconsts = _class_consts(rc)
+    w, r = rc.methods["to_dict"], rc.methods["from_dict"]
+    con_w, con_r = cname(OR_, "OptimizationResult", "to_dict"), cname(OR_, "OptimizationResult", "from_dict")
+
+    def const_of(e):  # self.__X / cls.__X (mangled or not) -> (name, value)
+        if isinstance(e, ast.Attribute) and dotted(e.value) in ("self", "cls"):
+            n = e.attr
+            for k_ in rconsts:
+                if n == k_ or n.endswith(k_) and n == mangle("OptimizationResult", k_):
+                    return k_, rconsts[k_]
+        return None
+
+    # writer: (mapping attribute, prefix) pairs
+    wpairs = {}
+    for lp in (n for n in stmts_of(w) if isinstance(n, ast.For)):
+        if isinstance(lp.target, ast.Tuple) and len(lp.target.elts) == 2 and isinstance(lp.iter, (ast.List, ast.Tuple)):
+            for el in lp.iter.elts:
+                if isinstance(el, ast.Tuple) and len(el.elts) == 2 and isinstance(el.elts[0], ast.Attribute) and dotted(el.elts[0].value) == "self":
+                    c = const_of(el.elts[1])
+                    if c is not None and isinstance(c[1], str):
+                        wpairs[el.elts[0].attr] = c[1]
+            mvar, pvar = (dotted(e) for e in lp.target.elts)
+            keyed = [s_ for s_ in ast.walk(lp) if isinstance(s_, ast.Assign) and isinstance(s_.targets[0], ast.Subscript) and isinstance(s_.targets[0].slice, ast.JoinedStr)]
+            okk = len(keyed) == 1
+            if okk:
+                js = keyed[0].targets[0].slice
+                parts = [dotted(v.value) for v in js.values if isinstance(v, ast.FormattedValue)]
+                inner = [l_ for l_ in ast.walk(lp) if isinstance(l_, ast.For) and l_ is not lp]
+                okk = len(parts) == 2 and parts[0] == pvar and len(inner) == 1 and norm_stmt(inner[0].iter) == f"{mvar}.items()" and isinstance(inner[0].target, ast.Tuple) and parts[1] == dotted(inner[0].target.elts[0]) and dotted(keyed[0].value) == dotted(inner[0].target.elts[1]) and not any(isinstance(v, ast.Constant) for v in js.values)
+            ctx.ob("11.6-solution", con_w, okk, "each entry of a constraint mapping is written under <prefix of that mapping><constraint name>", node=lp, stmt="dict_[f'{prefix}{key}'] = value")
+    ok = set(wpairs) == {"constraint_values", "constraints_grad"} and len(set(wpairs.values())) == 2
+    ctx.ob("11.6-solution", con_w, ok, f"to_dict writes the constraint values and the constraint gradients under two different prefixes (found {wpairs})", node=w, stmt="(constraint_values, C_TAG), (constraints_grad, CGRAD_TAG)")
+    if ok:
+        a_, b_ = wpairs.values()
+        ctx.ob("11.6-solution", con_w, not a_.startswith(b_) and not b_.startswith(a_), f"no prefix may begin with the other ({a_!r}, {b_!r}): from_dict routes a key by startswith, so an entry of one mapping would also land in the other", node=w, stmt="prefixes are not prefixes of each other")
+    # reader: for each `if key.startswith(T): m[key[T_LEN:]] = value`, m ends up in the field whose writer prefix is T
+    rpairs = {}
+    fields_of = {}
+    for call in (c for c in walk_body(r) if isinstance(c, ast.Call) and last_attr(c) == "update" and c.args and isinstance(c.args[0], ast.Dict)):
+        for k_, v_ in zip(c.args[0].keys if False else call.args[0].keys, call.args[0].values):
+            c_ = const_of(k_)
+            src = v_.values[0] if isinstance(v_, ast.BoolOp) and isinstance(v_.op, ast.Or) else v_
+            if c_ is not None and isinstance(src, ast.Name):
+                fields_of[src.id] = c_[1]
+    for st in (n for n in stmts_of(r) if isinstance(n, ast.If)):
+        t = st.test
+        if not (isinstance(t, ast.Call) and last_attr(t) == "startswith" and len(t.args) == 1):
+            continue
+        tag = const_of(t.args[0])
+        stores = [s_ for s_ in st.body if isinstance(s_, ast.Assign) and isinstance(s_.targets[0], ast.Subscript) and isinstance(s_.targets[0].value, ast.Name)]
+        okr = tag is not None and len(stores) == 1 and len(st.body) == 1
+        if okr:
+            sub = stores[0].targets[0]
+            sl = sub.slice
+            cut = const_of(sl.slice.lower) if isinstance(sl, ast.Subscript) and isinstance(sl.slice, ast.Slice) and sl.slice.upper is None and sl.slice.lower is not None else None
+            cut_ok = cut is not None and cut[1] == len(tag[1]) and dotted(sl.value) == dotted(t.func.value)
+            if isinstance(sl, ast.Call) and last_attr(sl) == "removeprefix" and len(sl.args) == 1:
+                c2 = const_of(sl.args[0])
+                cut_ok = c2 is not None and c2[1] == tag[1] and dotted(sl.func.value) == dotted(t.func.value)
+            okr = cut_ok
+            if okr:
+                rpairs[fields_of.get(sub.value.id, sub.value.id)] = tag[1]
+        ctx.ob("11.6-solution", con_r, bool(okr), "a key carrying a prefix is stored under the key WITHOUT that prefix (the cut length is the length of the same prefix)", node=st, stmt=f"if key.startswith({norm_stmt(t.args[0])}): strip that prefix")
+    ctx.ob("11.6-solution", con_r, bool(wpairs) and rpairs == wpairs, f"from_dict must route each prefix to the field to_dict wrote it from: writer {wpairs}, reader {rpairs}", node=r, stmt="reader prefixes -> fields = writer fields -> prefixes")
+    ctx.floor("11.6-function-description", 10)
+    ctx.floor("11.6-solution", 5)
+
+
 def run(ctx: Ctx) -> None:
     check_reload_order(ctx)
     check_database_tables(ctx)
@@ -1195,6 +1325,7 @@ def run(ctx: Ctx) -> None:
     check_csv_rows(ctx)
     check_cache_tables(ctx)
     check_problem_tables(ctx)
+    check_descriptions(ctx)
     h5py_files_in_with(ctx, "11.4-with", ["algos/_hdf_database.py", "algos/design_space.py", "algos/optimization_problem.py", "algos/database.py", "utils/hdf5.py", "algos/opt/mnbi/mnbi.py"], 6)
     ctx.floor("11.2-resize", 2)
     ctx.floor("11.1-problem-description", 6)
@@ -1203,6 +1334,12 @@ def run(ctx: Ctx) -> None:
 # ---------------------------------------------------------------------------
 _DBF = "algos/database.py"
 WITNESSES = [
+    {"name": "function-description-lists-a-non-parameter", "file": MF, "old": "        \"special_repr\",\n        \"output_names\",\n    ]", "new": "        \"special_repr\",\n        \"output_names\",\n        \"last_eval\",\n    ]", "expect": "11.6"},
+    {"name": "function-dim-not-stored", "file": MF, "old": "        self.dim = dim\n", "new": "        self.dim = 0\n", "expect": "11.6"},
+    {"name": "solution-prefix-of-the-other", "file": OR_, "old": "    __C_TAG = \"constr:\"", "new": "    __C_TAG = \"constr\"", "expect": "11.6"},
+    {"name": "solution-cut-with-the-other-length", "file": OR_, "old": "                cstr[key[cls.__C_TAG_LEN :]] = value", "new": "                cstr[key[cls.__CGRAD_TAG_LEN :]] = value", "expect": "11.6"},
+    {"name": "solution-mappings-swapped-on-reload", "file": OR_, "old": "            cls.__CONSTRAINTS_VALUES: cstr or None,\n            cls.__CONSTRAINTS_GRAD: cstr_grad or None,", "new": "            cls.__CONSTRAINTS_VALUES: cstr_grad or None,\n            cls.__CONSTRAINTS_GRAD: cstr or None,", "expect": "11.6"},
+    {"name": "solution-gradients-under-the-value-prefix", "file": OR_, "old": "            (self.constraints_grad, self.__CGRAD_TAG),", "new": "            (self.constraints_grad, self.__C_TAG),", "expect": "11.6"},
     {"name": "seeded-C11-10", "file": "algos/optimization_problem.py", "old": "\n            for name, functions in zip(\n                [problem._CONSTRAINTS_GROUP, problem._OBSERVABLES_GROUP],\n                [problem.constraints, problem.observables],\n            ):\n                if name in h5file:\n                    group = get_hdf5_group(h5file, name)\n                    for function_name in group:\n                        functions.append(\n                            MDOFunction.init_from_dict_repr(\n                                **convert_h5_group_to_dict(group, function_name)\n                            )\n                        )\n\n            is_mono_objective = False\n            with contextlib.suppress(ValueError):\n                # Sometimes the dimension of the problem cannot be determined.\n                is_mono_objective = problem.is_mono_objective\n\n            if not is_mono_objective and problem._SOLUTION_GROUP in h5file:\n                pareto_front = (\n                    ParetoFront.from_optimization_problem(problem)\n                    if problem.solution.is_feasible\n                    else None\n                )\n                problem.solution = MultiObjectiveOptimizationResult(\n                    **problem.solution.__dict__, pareto_front=pareto_front\n                )\n\n", "new": "\n            is_mono_objective = False\n            with contextlib.suppress(ValueError):\n                # Sometimes the dimension of the problem cannot be determined.\n                is_mono_objective = problem.is_mono_objective\n\n            if not is_mono_objective and problem._SOLUTION_GROUP in h5file:\n                pareto_front = (\n                    ParetoFront.from_optimization_problem(problem)\n                    if problem.solution.is_feasible\n                    else None\n                )\n                problem.solution = MultiObjectiveOptimizationResult(\n                    **problem.solution.__dict__, pareto_front=pareto_front\n                )\n\n            for name, functions in zip(\n                [problem._CONSTRAINTS_GROUP, problem._OBSERVABLES_GROUP],\n                [problem.constraints, problem.observables],\n            ):\n                if name in h5file:\n                    group = get_hdf5_group(h5file, name)\n                    for function_name in group:\n                        functions.append(\n                            MDOFunction.init_from_dict_repr(\n                                **convert_h5_group_to_dict(group, function_name)\n                            )\n                        )\n\n", "expect": "11.5", "note": "OptimizationProblem.from_hdf rebuilds the multi-objective solution (Pareto front"},
     {"name": "csv-cursor-starts-at-zero", "file": "algos/design_space.py", "old": "        k = start_read\n", "new": "        k = 0\n", "expect": "11.1"},
     {"name": "design-space-values-all-or-nothing", "file": DS, "old": "                value = self.__current_value.get(name)\n                if value is not None:\n                    var_grp.create_dataset(self.VALUE_GROUP, data=self.__to_real(value))", "new": "                if self.__has_current_value:\n                    value = self.__current_value[name]\n                    var_grp.create_dataset(self.VALUE_GROUP, data=self.__to_real(value))", "expect": "11.1"},
@@ -1233,6 +1370,8 @@ WITNESSES = [
     {"name": "file-opened-without-with", "file": HD, "old": "        with h5py.File(file_path) as h5file:\n", "new": "        h5file = h5py.File(file_path)\n        if True:\n", "expect": "11.4"},
 ]
 TWINS = [
+    {"name": "solution-removeprefix", "file": OR_, "old": "                cstr[key[cls.__C_TAG_LEN :]] = value", "new": "                cstr[key.removeprefix(cls.__C_TAG)] = value"},
+    {"name": "function-description-original-name", "file": MF, "old": "        \"special_repr\",\n        \"output_names\",\n    ]", "new": "        \"special_repr\",\n        \"output_names\",\n        \"original_name\",\n    ]"},
     {"name": "groups-renamed-consistently", "edits": [
         {"file": HD, "old": "            keys_group = h5file.require_group(\"k\")", "new": "            keys_group = h5file.require_group(\"names\")"},
         {"file": HD, "old": "            keys_group = h5file[\"k\"]", "new": "            keys_group = h5file[\"names\"]"},
